@@ -9,6 +9,6 @@ import (
 
 func init() {
 	registry["C12"] = entry{run: c12.Run, replay: func(r *monitor.Run, d json.RawMessage) { c12.Replay(r, d) }, level: "exploration",
-		rule: "cases = publisher (v5 with expiry 1/2/3/10 s, v5 without, v3.1.1, Publisher API with and without expiry) x configured message_expiry (0/1 s/2 s/2 h) x subscriber (v3.1.1/v5) x waiting mode (online, offline for w then reconnect, slow: Receive Maximum 1 with a withheld ack) with w at least 0.9 s on either side of the lifetime min(expiry, configured); the waiting interval is measured from client-side send/ack/receive times, only cases whose whole interval lies 400 ms off the boundary are decided, verdicts must recur on re-execution; checks: not delivered after expiry + reported expired, delivered before, forwarded interval within [e-ceil(w_hi), e-floor(w_lo)], absent iff the publisher set none. Distinct by parameters; all decided cases are non-trivial.",
+		rule: "cases = publisher (v5 with expiry 1/2/3/10 s, v5 without, v3.1.1, Publisher API with and without expiry) x configured message_expiry (0/1 s/2 s/2 h) x subscriber (v3.1.1/v5) x waiting mode (online, offline for w then reconnect, slow: Receive Maximum 1 with a withheld ack) with w at least 0.9 s on either side of the lifetime min(expiry, configured); the waiting interval is measured from client-side send/ack/receive times, only cases whose whole interval lies 400 ms off the boundary are decided, verdicts must recur on re-execution; checks: not delivered after expiry + reported expired, delivered before, forwarded interval within [e-ceil(w_hi), e-floor(w_lo)], absent iff the publisher set none. Distinct by parameters; all decided cases are non-trivial. Half of the cases run with the default inflight_expiry.",
 		assumptions: []string{"real time with 400 ms margins", "sentinel published after the test message decides 'not delivered'", "retained-store ageing is outside the statement's quantifier"}}
 }
